@@ -224,6 +224,7 @@ class Body:
         self.file = loc_of(raw["span"]).rsplit(":", 2)[0]
         self.tracing_prov = own_file(raw["span"]).startswith("dep:tracing")
         self._defs = None
+        self.snapshots = set()
         self._origin_cache = {}
         self._in_progress = set()
         self.flag_locals = None
@@ -289,6 +290,12 @@ class Body:
                     e = ("unknown", "undef:_%d" % l)
                 elif len(ds) == 1:
                     e = self._def_expr(ds[0])
+                    if ds[0][0] == "stmt" and ds[0][3]["k"] in ("use", "binop", "unop", "cast") and e[0] not in ("phi", "flag") and self.locals[l]["ty"] in SCALAR_TYS \
+                            and any(x[0] == "phi" and len(x) > 2 for x in walk(e)):
+                        # `let slot = current + 1;` with `current` re-assigned later: the value is the one `current` had when this
+                        # statement ran, not the one it has where `slot` is used - a snapshot, resolved through its own `set` event
+                        self.snapshots.add(l)
+                        e = ("phi", (e,), "%s|%d" % (self.id, l))
                 else:
                     if l in self.flag_locals:
                         e = ("flag", self.id, l)
@@ -958,9 +965,22 @@ def message_discr(body, e):
     return e[0] == "discr" and e[1] == ("param", body.id, 2)
 
 
+SCALAR_TYS = ("usize", "u8", "u16", "u32", "u64", "u128", "isize", "i8", "i16", "i32", "i64", "i128", "bool")
 VARIANT_INDEX = {"Option::None": 0, "Option::Some": 1, "Result::Ok": 0, "Result::Err": 1}     # aggregate name -> variant index (filled from the facts)
 STEP_LIMIT = 300000        # block visits per arm enumeration; the largest arm of the pinned tree needs 481 (40 paths) at thorough depth
 STATS = {}
+
+
+def resolve_now(events, e):
+    """The value of an expression at this point of a path: multi-assigned locals (and snapshots) it mentions are replaced by
+    their latest assignment so far, so that a later re-assignment cannot change what was stored."""
+    if not any(x[0] == "phi" and len(x) > 2 for x in walk(e)):
+        return e
+    last = {}
+    for ev in events:
+        if ev[0] == "set":
+            last[ev[1]] = ev[2]
+    return rewrite(e, lambda x: last.get(x[2]) if x[0] == "phi" and len(x) > 2 and x[2] in last else None)
 
 
 def enumerate_paths(prog, body, variant=None, entry=0, max_visits=2, inline=1, limit=20000, corstate=None):
@@ -1005,8 +1025,9 @@ def enumerate_paths(prog, body, variant=None, entry=0, max_visits=2, inline=1, l
                         events = events + [("ld", vr[2], vr[1])]
                 if not lhs["p"] and lhs["l"] == 0 and body.kind != "coroutine":
                     events = events + [("ret", prog.link(body.rvalue_expr(rv, (body.id, bid))))]
-                if not lhs["p"] and lhs["l"] not in body.flag_locals and len(body._defs.get(lhs["l"], [])) > 1 and rv["k"] != "setdiscr":
-                    events = events + [("set", "%s|%d" % (body.id, lhs["l"]), prog.link(body.rvalue_expr(rv, (body.id, bid))))]
+                if not lhs["p"] and lhs["l"] not in body.flag_locals and rv["k"] != "setdiscr" and \
+                        (len(body._defs.get(lhs["l"], [])) > 1 or (body.origin_local(lhs["l"]) is not None and lhs["l"] in body.snapshots)):
+                    events = events + [("set", "%s|%d" % (body.id, lhs["l"]), resolve_now(events, prog.link(body.rvalue_expr(rv, (body.id, bid)))))]
                 if rv["k"] == "setdiscr" and cor:
                     last_state = rv["vi"]
                     continue
@@ -1064,7 +1085,7 @@ def enumerate_paths(prog, body, variant=None, entry=0, max_visits=2, inline=1, l
                 if k == "call" and not t["dest"]["p"] and t["dest"]["l"] == 0 and body.kind != "coroutine":
                     events = events + [("ret", prog.link(body.call_expr(t, (body.id, bid))))]
                 if k == "call" and not t["dest"]["p"] and len(body._defs.get(t["dest"]["l"], [])) > 1:
-                    events = events + [("set", "%s|%d" % (body.id, t["dest"]["l"]), prog.link(body.call_expr(t, (body.id, bid))))]
+                    events = events + [("set", "%s|%d" % (body.id, t["dest"]["l"]), resolve_now(events, prog.link(body.call_expr(t, (body.id, bid)))))]
                 if not t["succ"]:
                     out.append(Path(events, "diverge", blocks))
                     return
